@@ -153,7 +153,10 @@ def elaborate(case):
             if kind == 'reg_d':
                 defaults[r] = pyrtl.Input(DW, 'dflt_' + name)
         elif kind == 'mem':
-            targets[name] = pyrtl.MemBlock(bitwidth=DW, addrwidth=AW, name=name, asynchronous=True)
+            # (a memory that allows several write ports is still written through ONE conditional port: overlapping branches
+            #  are refused for it as for any other target)
+            mwp = case.get('mwp', 1)
+            targets[name] = pyrtl.MemBlock(bitwidth=DW, addrwidth=AW, name=name, asynchronous=True, max_write_ports=mwp or None)
     assign = case['assign']    # {target name: {node index: 'pre'|'post'}}
     data = {}
     counter = [0]
@@ -288,7 +291,7 @@ def cases(tier, seed):
         amap = {str(k): rng.choice(['pre', 'post']) for k in range(n) if mask >> k & 1}
         addrs = {k: rng.choice([0, 1, 1]) for k in amap}
         out.append({'shape': to_json(sh), 'targets': [{'kind': 'mem', 'name': 't0'}], 'assign': {'t0': amap}, 'K': 2,
-                    'addrs': {'t0': addrs}})
+                    'addrs': {'t0': addrs}, 'mwp': [1, 2, 0][i % 3]})
     # right-hand sides other than a fresh Input: the target register itself (an explicit hold) and integer constants
     for i in range(300 if tier == 'quick' else 8000):
         sh = rng.choice(pool)
